@@ -117,6 +117,7 @@ impl Default for Brc20ProgDatabase {
 
 impl Brc20ProgDatabase {
     pub fn new(base_path: &Path) -> Result<Self, Box<dyn Error>> {
+        #[cfg(not(brc20_prog_verif))] // the verification harness opens many instances per process
         rlimit::Resource::NOFILE.set(4096, 8192)?;
 
         Ok(Self {
